@@ -461,3 +461,77 @@ Definition obs_agree (es : list exchange) (m o : conn_obs) : bool :=
    && forall3b (fun e a b => wres_equiv (nominated (shdrs (resp_of e))) a b)
             (firstn (List.length (client_got m)) es) (client_got m) (client_got o)
    && Bool.eqb (closed m) (closed o))%bool.
+
+(* ---------------------------------------------------------------- arrival schedules (pipelining) *)
+
+(* The connection loop, generically: [h e] is what handling one exchange emits
+   and whether the loop then stops.  [conn_run] above (and C03's
+   [conn_stream]) are instances. *)
+Section Loop.
+  Variables (E O : Type) (h : E -> O * bool).
+
+  Fixpoint loop_run (es : list E) : list O * bool :=
+    match es with
+    | [] => ([], false)
+    | e :: es' =>
+        let '(o, cl) := h e in
+        if cl then ([o], true)
+        else let '(os, c) := loop_run es' in (o :: os, c)
+    end.
+
+  (* A client may deliver its requests at any time relative to the proxy's
+     progress: one at a time, all at once (pipelined), or a request in pieces.
+     [LArrive]: the next request has arrived completely; [LPartial]: some more
+     bytes of a request arrived, but not its end; [LServe]: handleLoop's next
+     iteration runs to completion on the oldest arrived, unserved request.
+     ATOMICITY: [LServe] is one step - proxy.go's handleLoop calls handle for
+     request i+1 only after handle for request i has returned (response
+     written and flushed); there is one goroutine per client connection. *)
+  Inductive slabel := LArrive | LPartial | LServe.
+
+  Record sstate := mkS
+    { s_pending : list E;      (* arrived, not yet served *)
+      s_future : list E;       (* not yet (completely) arrived *)
+      s_out : list O;          (* emitted so far, in order *)
+      s_closed : bool }.
+
+  Definition sinit (es : list E) : sstate := mkS [] es [] false.
+
+  Definition sstep (st : sstate) (l : slabel) : option sstate :=
+    match l with
+    | LPartial => Some st
+    | LArrive =>
+        match s_future st with
+        | e :: f => Some (mkS (s_pending st ++ [e]) f (s_out st) (s_closed st))
+        | [] => None
+        end
+    | LServe =>
+        if s_closed st then None
+        else match s_pending st with
+             | e :: p => let '(o, cl) := h e in Some (mkS p (s_future st) (s_out st ++ [o]) cl)
+             | [] => None
+             end
+    end.
+
+  Fixpoint srun (st : sstate) (ls : list slabel) : option sstate :=
+    match ls with
+    | [] => Some st
+    | l :: ls' => match sstep st l with Some st' => srun st' ls' | None => None end
+    end.
+
+  (* nothing left to do: everything has arrived and either the loop stopped or
+     everything arrived has been served *)
+  Definition quiescent (st : sstate) : Prop :=
+    s_future st = [] /\ (s_closed st = true \/ s_pending st = []).
+End Loop.
+
+Arguments loop_run {E O} h es.
+Arguments sinit {E O} es.
+Arguments sstep {E O} h st l.
+Arguments srun {E O} h st ls.
+Arguments quiescent {E O} st.
+Arguments s_out {E O} s.
+Arguments s_closed {E O} s.
+Arguments s_pending {E O} s.
+Arguments s_future {E O} s.
+Arguments mkS {E O} _ _ _ _.
